@@ -284,6 +284,20 @@ fn corpus() -> Vec<Plan> {
         for i in order { hist.push(Input::Data(cs[i].clone())); }
         v.push(Plan { kind: "corpus", client: true, chans: ch0.clone(), sc: sc0.clone(), w, t0, hist, spec: true, note: format!("size {} reversed", n), seq_prefix: None });
     }
+    // messages around and beyond 256 KiB (no size bound in the reassembly): ordered and unordered, byte identity
+    for (k, n) in [262_143usize, 262_144, 262_145, 300_000, 1_048_576].into_iter().enumerate() {
+        let t0 = 0xFFFF_FC00u32.wrapping_add(k as u32 * 97);
+        let chans = vec![ChanCfg::negotiated(0, true), ChanCfg::negotiated(1, false)];
+        let sc = vec![SChan { id: 0, ordered: true, mps: 1200 }, SChan { id: 1, ordered: false, mps: 1200 }];
+        let mut w = vec![Sub { sid: 0, ppid: 53, data: ap_bytes(n, n as u8) }, Sub { sid: 0, ppid: 51, data: b"after".to_vec() }];
+        if n < 1_000_000 { w.push(Sub { sid: 1, ppid: 53, data: ap_bytes(n, (n >> 3) as u8) }); w.push(Sub { sid: 1, ppid: 53, data: b"tail".to_vec() }); }
+        let cs = peer_chunks(&sc, &w, t0, true);
+        let mut hist = handshake(k % 2 == 0, t0);
+        let mut order: Vec<usize> = (0..cs.len()).collect();
+        if n == 262_145 { order.reverse(); }
+        for i in order { hist.push(Input::Data(cs[i].clone())); }
+        v.push(Plan { kind: "corpus", client: k % 2 == 0, chans, sc, w, t0, hist, spec: true, note: format!("size {} ordered + unordered{}", n, if n == 262_145 { " reversed" } else { "" }), seq_prefix: None });
+    }
     v
 }
 
@@ -736,7 +750,8 @@ async fn main() {
         let spec_sc;
         let spec = if p.spec { spec_sc = (p.sc.clone(), p.w.clone()); Some((&spec_sc.0[..], &spec_sc.1[..], p.t0)) } else { None };
         let huge = p.hist.len() > 20_000;
-        let term = plan_term(&p, &o, spec);
+        // the 1 MiB case goes to the direct oracle only (the model's list append is quadratic in the message size)
+        let term = if p.w.iter().any(|m| m.data.len() >= 1_000_000) { "-".to_string() } else { plan_term(&p, &o, spec) };
         let hist_json: Vec<serde_json::Value> = p.hist.iter().take(40).map(|i| i.json()).collect();
         let (oracle_fail, known) = match v.fail {
             Some(f) => (Some(f), None),
